@@ -231,6 +231,23 @@ impl FixtureDatabase {
                     self.visit_expr_for_names(msg, ctx);
                 }
             }
+            Stmt::Try(try_stmt) => {
+                for stmt in &try_stmt.body {
+                    self.visit_stmt_for_names(stmt, ctx);
+                }
+                for handler in &try_stmt.handlers {
+                    let rustpython_parser::ast::ExceptHandler::ExceptHandler(h) = handler;
+                    for stmt in &h.body {
+                        self.visit_stmt_for_names(stmt, ctx);
+                    }
+                }
+                for stmt in &try_stmt.orelse {
+                    self.visit_stmt_for_names(stmt, ctx);
+                }
+                for stmt in &try_stmt.finalbody {
+                    self.visit_stmt_for_names(stmt, ctx);
+                }
+            }
             _ => {}
         }
     }
